@@ -257,6 +257,25 @@ def float_monitors(chk, tier):
                     if RTo3.as_operators or dev > 1e-9 * sc:
                         chk.violation("float:convert_inside_context:" + bname, "an operator-form Redfield tensor converted by convert_2_tensor() as the first access "
                                       "inside a basis context (%s) acts differently from the tensor form: %g (scale %g)" % (bname, dev, sc), "monitor", c)
+                # "in every basis": the eigenbasis of a Hermitian operator with complex coherences (a complex unitary basis change).
+                # Run on a SEPARATE, identically built system: objects read inside such a context keep rounding-level imaginary
+                # parts, and tensors rebuilt from them are different tensors (consequence of the same recorded finding).
+                aggc, tac, rsc = build_aggregate(c["seed"], c["N"])
+                RToc, hamc = aggc.get_RelaxationTensor(tac, relaxation_theory="stR", as_operators=True)
+                RTtc, hamc = aggc.get_RelaxationTensor(tac, relaxation_theory="stR")
+                want = np.array(RTtc.apply(qr.qm.Operator(data=X.copy())).data)
+                B3 = rs.randn(n, n) + 1j * rs.randn(n, n)
+                bopc = qr.ReducedDensityMatrix(data=B3 + B3.conj().T)
+                opc = qr.qm.Operator(data=X.copy())
+                with qr.eigenbasis_of(bopc):
+                    RToc.convert_2_tensor()
+                    innerc = RToc.apply(opc)
+                dev = float(np.max(np.abs(np.array(innerc.data) - want)))
+                if dev > 1e-9 * sc:
+                    chk.violation("float:convert_inside_context:complex", "an operator-form Redfield tensor converted by convert_2_tensor() inside the "
+                                  "eigenbasis of a complex Hermitian operator acts differently from the tensor form: %g (scale %g)" % (dev, sc), "monitor", c)
+                del aggc, RToc, RTtc, hamc
+                reset_manager()
                 # propagated dynamics, both forms
                 rho0 = np.zeros((n, n), dtype=complex)
                 rho0[n - 1, n - 1] = 1.0
